@@ -47,6 +47,14 @@ CLAIMED = {
             "correspondence (model = real parse+check on generated programs in all four modes) plus an independent "
             "oracle on the real output.",
             "trusted: Model/Preproc.v (hand model, differential), tools/translate tables"),
+    "C15": ("PARTIAL proof. Coq theorems: reset() (regenerated from hera/vm.py) yields a state that depends only on "
+            "the settings object, prior terminal output and the settings' warning counter, so a run is the same "
+            "whatever the machine executed before (run_deterministic); every attribute vm.py assigns is a field of "
+            "the model; the throttled loop, by induction on iterations, stops after exactly min(n, run length) "
+            "instructions and its states coincide with those of any larger limit (prefix). The comparison with the "
+            "*unthrottled* loop (which differs by not counting) and process-level isolation of hera.main are decided "
+            "by differential runs on the real machine (every n in 0..len+2; run / rerun / other program / rerun).",
+            "trusted: as C02 plus the oracle harness; process state outside VirtualMachine attributes is not modelled"),
 }
 
 checks = []
